@@ -150,7 +150,7 @@ opaque = inline_except(*PUBLIC_ANCHORS)
 
 
 def check_public(ctx, lits):
-    ctx.rule('C01.5', 'in each of the three fixed-point modes the public function passes to the range sums an index array into x_ref and to '
+    ctx.rule('C01.5', 'in each of the three fixed-point modes (and with both designations given, where the indices win) the public function passes to the range sums an index array into x_ref and to '
                       'the stretch an index array into x, both defined on every path; the values are canonically equal (value numbering, callees '
                       'uninterpreted) to the documented wiring; count and membership guards raise ValueError before the computation')
     ctx.rule('C01.4', 'window/integral index convention: the interval loop zips the target integrals with consecutive pairs of fixed indices; '
@@ -163,6 +163,8 @@ def check_public(ctx, lits):
         'search': {'fixed_points_in_x': Const(None), 'fixed_points_indices_in_x': Const(None)},
         'values': {'fixed_points_in_x': arr_param('FP', kind='list'), 'fixed_points_indices_in_x': Const(None)},
         'indices': {'fixed_points_in_x': Const(None), 'fixed_points_indices_in_x': arr_param('FI', kind='list')},
+        # both designations given: the indices take precedence (documented: "If specified, `fixed_points_in_x` is ignored")
+        'both': {'fixed_points_in_x': arr_param('FP', kind='list'), 'fixed_points_indices_in_x': arr_param('FI', kind='list')},
     }
     SPEC = {
         'search': ('np.where(np.isin(x, np.unique(x.take(find_closest_element_indices_to_values(x, x_ref, strategy=strategy)))))[0]',
@@ -172,6 +174,7 @@ def check_public(ctx, lits):
         'indices': ('np.unique(FI)',
                     'np.where(np.isin(x_ref, x_ref.take(find_closest_element_indices_to_values(x_ref, x.take(np.unique(FI)), strategy="closest"))))[0]'),
     }
+    SPEC['both'] = SPEC['indices']
     for mode, extra in modes.items():
         x, y = arr_param('x', length=Lx), arr_param('y', length=Lx)
         xr, yr = arr_param('x_ref', length=Lr), arr_param('y_ref', length=Lr)
@@ -236,7 +239,7 @@ def check_public(ctx, lits):
         raises = [e for e in ev.events if e.kind == 'raise']
         first_call_seq = calls['integral'].seq
         ok = [e for e in raises if e.data.get('exc') == 'ValueError' and e.seq < first_call_seq]
-        want_n = {'search': 1, 'values': 2, 'indices': 2}[mode]
+        want_n = {'search': 1, 'values': 2, 'indices': 2, 'both': 2}[mode]
         ctx.check(len(ok) >= want_n and len(ok) == len(raises), 'C01.5',
                   f"mode {mode}: count/membership guards raise ValueError before the integrals are computed",
                   f"raises: {[(e.data.get('exc'), e.loc()) for e in raises]} (need >= {want_n} ValueError guards)", fi.loc(), fi.qualname,
